@@ -193,7 +193,21 @@ def first_difference(a, b, path='obs'):
 # --------------------------------------------------------------------------------------------
 # cases
 
+ESCAPE_LABELS = ['\\alpha', 'C:\\temp\\new', "it's", 'q"uote', 'a\nb', '\\', 'tab\there', '\u03a9', "\\'", '\\n', 'a b', '']
+
+
+def _label_cases():
+    """labels that need escaping in the text codecs (python-literal repr, JSON): backslashes, quotes, control characters"""
+    L = ESCAPE_LABELS
+    for k, rows in enumerate(([[1, 0], [0, 1]], [[1, 1, 0], [0, 1, 1]], [[0, 1], [1, 1], [1, 0]])):
+        n, m = len(rows), len(rows[0])
+        objs = [L[(k * 5 + i) % len(L)] + ('' if i == 0 else '#%d' % i) for i in range(n)]
+        props = [L[(k * 5 + n + j) % len(L)] + '@%d' % j for j in range(m)]
+        yield common.case_of_table(rows, objs, props, family='escape-labels', perm_samples=4)
+
+
 def _table_cases(tier, rng):
+    yield from _label_cases()
     if tier == 'quick':
         for n, m in ((1, 1), (1, 2), (2, 1), (2, 2), (1, 3), (3, 1), (2, 3), (3, 2)):
             for rows in common.all_tables(n, m):
